@@ -3,6 +3,8 @@
 
 #include "patternformatter.h"
 
+#include <cstring>
+
 #include <optional>
 
 #include <QSharedPointer>
@@ -610,10 +612,10 @@ private:
                 int operatorEnd = opCheck + 8;
                 if (operatorEnd <= closeAngle) {
                     bool isOperatorSymbol = true;
-                    static const QByteArray operatorChars("=!+-*/%^&|~<>");
+                    static const char operatorChars[] = "=!+-*/%^&|~<>";
                     for (int i = operatorEnd; i <= closeAngle; ++i) {
                         char ch = func.at(i);
-                        if (!operatorChars.contains(ch)) {
+                        if (ch == '\0' || !strchr(operatorChars, ch)) {
                             isOperatorSymbol = false;
                             break;
                         }
